@@ -7,7 +7,7 @@ from . import ops, fingerprint
 
 
 def state_key(ctx):
-    return (fingerprint.fingerprint(ctx.me), ctx.obs.key())
+    return (fingerprint.fingerprint(ctx.me), ctx.obs.key(), ctx.mon.key())
 
 
 def build(client, alphabet, max_depth, upgrade=False, cfg=None, limit=5000, roots=None,
